@@ -129,15 +129,23 @@ def merge_stats(a, b):
     return a
 
 
-def replay_real(H, cfg, model):
+def replay_real(H, cfg, model, want_key=None):
     """re-run the scenario on the unmodified real code; returns (reproduced, label, key, detail)"""
     ctx = RealCtx(model)
-    try:
-        H.run(ctx, cfg)
-        return False, None, None, None
-    except ConcreteViolation as cv:
+
+    def pick():
+        for lab, key, det in ctx.failed:
+            if key == want_key:
+                return True, lab, key, det
         lab, key, det = ctx.failed[-1]
         return True, lab, key, det
+    try:
+        H.run(ctx, cfg)
+        if ctx.failed:
+            return pick()
+        return False, None, None, None
+    except ConcreteViolation as cv:
+        return pick()
     except E.PathAbort:
         return False, None, None, "assumption not met by the model values"
     except Exception as ex:
@@ -164,6 +172,8 @@ def validate_models(H, cfgs, L, report):
                 outcome = "ok"
                 try:
                     H.run(ctx, cfg)
+                    if ctx.failed:
+                        outcome = "violation:" + ctx.failed[0][0]
                 except ConcreteViolation as cv:
                     outcome = "violation:" + cv.label
                 except E.PathAbort:
@@ -359,7 +369,7 @@ def main(argv=None):
                 ok, lab, key, det = True, v["label"], v["key"], v["detail"]  # mutants exist only in memory
             else:
                 try:
-                    ok, lab, key, det = replay_real(H, v["cfg"], v["model"])
+                    ok, lab, key, det = replay_real(H, v["cfg"], v["model"], v["key"])
                 except Exception as ex:
                     ok, lab, key, det = False, None, None, "replay crashed: %r" % (ex,)
         if not ok:
